@@ -52,6 +52,10 @@ Ltac by_guards f :=
   intros; unfold f; cbv zeta;
   repeat match goal with |- context [if ?c then _ else _] => destruct c end; discriminate.
 
+(* setters without any indexing: case analysis is enough (and much faster than 65536 evaluations);
+   fall back to the sweep if the source grows a table *)
+Ltac guards_or_sweep88 f := first [ by_guards f | sweep88 f ].
+
 (* ---- amf0 ---- *)
 Lemma amf0_marker_String_total : forall v, 0 <= v < 2 ^ 8 -> forall s, amf0_marker_String v <> Panic s.
 Proof. sweep8 amf0_marker_String. Qed.
@@ -139,11 +143,11 @@ Proof. sweep8 flv_AudioSamplingRate_ToHz_res. Qed.
 Lemma flv_AudioSamplingRate_OpusToHz_total : forall v, 0 <= v < 2 ^ 8 -> forall s, flv_AudioSamplingRate_OpusToHz_res v <> Panic s.
 Proof. sweep8 flv_AudioSamplingRate_OpusToHz_res. Qed.
 Lemma flv_AudioSamplingRate_From_total : forall v a, 0 <= v < 2 ^ 8 -> 0 <= a < 2 ^ 8 -> forall s, flv_AudioSamplingRate_From_res v a <> Panic s.
-Proof. sweep88 flv_AudioSamplingRate_From_res. Qed.
+Proof. guards_or_sweep88 flv_AudioSamplingRate_From_res. Qed.
 Lemma flv_AudioSamplingRate_OpusFrom_total : forall v a, 0 <= v < 2 ^ 8 -> 0 <= a < 2 ^ 8 -> forall s, flv_AudioSamplingRate_OpusFrom_res v a <> Panic s.
-Proof. sweep88 flv_AudioSamplingRate_OpusFrom_res. Qed.
+Proof. guards_or_sweep88 flv_AudioSamplingRate_OpusFrom_res. Qed.
 Lemma flv_AudioChannels_From_total : forall v a, 0 <= v < 2 ^ 8 -> 0 <= a < 2 ^ 8 -> forall s, flv_AudioChannels_From_res v a <> Panic s.
-Proof. sweep88 flv_AudioChannels_From_res. Qed.
+Proof. guards_or_sweep88 flv_AudioChannels_From_res. Qed.
 
 (* ---- aac ---- *)
 Lemma aac_ObjectType_String_total : forall v, 0 <= v < 2 ^ 8 -> forall s, aac_ObjectType_String v <> Panic s.
